@@ -54,7 +54,7 @@ theorem inv_init : Inv St.init := by
     split at h
     · cases h; cases hp
     · cases h
-  · intro k; rfl
+  · intro k h; cases h
 
 
 /-- closed form of a successful `auth/token/create[-orphan]` by `r` -/
@@ -204,7 +204,7 @@ theorem inv_mkTok {s : St} (hI : Inv s) (r : Nat) (orphan : Bool) (sk : Nat) (hr
       split
       · rfl
       · exact this
-  · exact hI.pendNone
+  · exact hI.pendClean
 
 
 /-! ### renew-self, cubbyhole write, leased read, lookup-self, settle -/
@@ -233,7 +233,7 @@ theorem run_renew {s : St} (hI : Inv s) (f t : Nat) :
 theorem inv_renewTok {s : St} (hI : Inv s) (t : Nat) (ht : (s.ids t).isSome) : Inv (renewTok t s) := by
   obtain ⟨e, he⟩ := Option.isSome_iff_exists.mp ht
   refine ⟨⟨hI.fi.edge_lt, hI.fi.edge_live, hI.fi.entry_edge, hI.fi.idsB, ?_, hI.fi.cubB, hI.fi.tixB, hI.fi.slIx⟩,
-    hI.unmarked, ?_, hI.acc, ?_, ?_, hI.parentLive, hI.pendNone⟩
+    hI.unmarked, ?_, hI.acc, ?_, ?_, hI.parentLive, hI.pendClean⟩
   · intro x e' h
     have hx := hI.fi.tok x e' h
     refine ⟨hx.pend, ?_, ?_⟩
@@ -277,7 +277,7 @@ theorem run_cubby {s : St} (hI : Inv s) (f t k : Nat) :
 theorem inv_cubbyTok {s : St} (hI : Inv s) (t k : Nat) (ht : (s.ids t).isSome) : Inv (cubbyTok t k s) := by
   obtain ⟨e, he⟩ := Option.isSome_iff_exists.mp ht
   refine ⟨⟨hI.fi.edge_lt, hI.fi.edge_live, hI.fi.entry_edge, hI.fi.idsB, ?_, ?_, hI.fi.tixB, hI.fi.slIx⟩,
-    hI.unmarked, hI.lease, hI.acc, hI.cacheEq, ?_, hI.parentLive, hI.pendNone⟩
+    hI.unmarked, hI.lease, hI.acc, hI.cacheEq, ?_, hI.parentLive, hI.pendClean⟩
   · intro x e' h
     have hx := hI.fi.tok x e' h
     exact ⟨hx.pend, hx.cache, hx.tlc⟩
@@ -309,7 +309,7 @@ theorem run_lease {s : St} (hI : Inv s) (f t lk : Nat) :
 theorem inv_leaseTok {s : St} (hI : Inv s) (t lk : Nat) (ht : (s.ids t).isSome) : Inv (leaseTok t lk s) := by
   obtain ⟨e, he⟩ := Option.isSome_iff_exists.mp ht
   refine ⟨⟨hI.fi.edge_lt, hI.fi.edge_live, hI.fi.entry_edge, hI.fi.idsB, ?_, hI.fi.cubB, ?_, ?_⟩,
-    hI.unmarked, hI.lease, hI.acc, hI.cacheEq, ?_, hI.parentLive, hI.pendNone⟩
+    hI.unmarked, hI.lease, hI.acc, hI.cacheEq, ?_, hI.parentLive, hI.pendClean⟩
   · intro x e' h
     have hx := hI.fi.tok x e' h
     exact ⟨hx.pend, hx.cache, hx.tlc⟩
@@ -347,7 +347,7 @@ theorem run_lookupSelf {s : St} (hI : Inv s) (f t : Nat) :
 
 theorem inv_settle {s : St} (hI : Inv s) : Inv s.settle := by
   refine ⟨⟨hI.fi.edge_lt, hI.fi.edge_live, hI.fi.entry_edge, hI.fi.idsB, ?_, hI.fi.cubB, ?_, ?_⟩,
-    hI.unmarked, hI.lease, hI.acc, hI.cacheEq, ?_, hI.parentLive, hI.pendNone⟩
+    hI.unmarked, hI.lease, hI.acc, hI.cacheEq, ?_, hI.parentLive, hI.pendClean⟩
   · intro x e' h
     have hx := hI.fi.tok x e' h
     exact ⟨hx.pend, hx.cache, hx.tlc⟩
